@@ -202,6 +202,8 @@ class Exec(ExecBase):
             vs = [self.narrow(x, st1) for x in vs]
             ety = self.elem_type_of_values(vs) if vs else T.Int
             l, st2 = self.new_list(ety, "seq", st1, vs)
+            if not vs:
+                l.untyped = True   # element type fixed by the first append/extend
             yield l, st2
 
     def ev_Dict(self, node: ast.Dict, st: State) -> Iterator[Tuple[V, State]]:
@@ -398,10 +400,24 @@ class Exec(ExecBase):
         la, lb = self.list_len(a, st).term, self.list_len(b, st).term
         ref, st = self.alloc(st)
         key, el = self._elem_arr(st, a.elem)
+        A, B = z3.Select(el, a.ref), z3.Select(el, b.ref)
+        R = z3.Const(fresh_name("cat"), A.sort())
         i = z3.Int(fresh_name("ci"))
-        inner = z3.Lambda([i], z3.If(i < la, z3.Select(z3.Select(el, a.ref), i), z3.Select(z3.Select(el, b.ref), i - la)))
+        # pattern-annotated definition of the concatenation (triggers on reads of R, of A and of B)
+        st = st.assume(z3.ForAll([i], z3.Implies(z3.And(i >= 0, i < la), z3.Select(R, i) == z3.Select(A, i)),
+                                 patterns=[z3.Select(R, i)]),
+                       z3.ForAll([i], z3.Implies(z3.And(i >= 0, i < la), z3.Select(R, i) == z3.Select(A, i)),
+                                 patterns=[z3.Select(A, i)]),
+                       z3.ForAll([i], z3.Implies(z3.And(i >= 0, i < lb), z3.Select(R, i + la) == z3.Select(B, i)),
+                                 patterns=[z3.Select(B, i)]),
+                       z3.ForAll([i], z3.Implies(z3.And(i >= la, i < la + lb), z3.Select(R, i) == z3.Select(B, i - la)),
+                                 patterns=[z3.Select(R, i)]),
+                       la >= 0, lb >= 0)
         st = st.hset("L.len", z3.Store(self._len_arr(st), ref, la + lb))
-        st = st.hset(key, z3.Store(el, ref, inner))
+        st = st.hset(key, z3.Store(el, ref, R))
+        ka, kb = self.known_len(a, st) if a.ref.get_id() in st.lens else None, self.known_len(b, st) if b.ref.get_id() in st.lens else None
+        if ka is not None and kb is not None:
+            st.lens = {**st.lens, ref.get_id(): ka + kb}
         yield VList(a.elem, "seq", ref), st
 
     def ev_Subscript(self, node: ast.Subscript, st: State) -> Iterator[Tuple[V, State]]:
